@@ -60,6 +60,7 @@ class FS:
         self.torn = 0             # bytes of the dying write that still reach the kernel
         self.errno_at = None
         self.errno = _errno.EIO
+        self.errno_exc = None     # optional: callable making the exception the refused call raises instead of OSError(errno)
         self.dead = False
         self.log = []             # (n, op, relpath, size)
         self.files = []
@@ -92,13 +93,14 @@ class FS:
         self.short_at = None
         self._short_pending = None
 
-    def arm(self, crash_at=None, torn=0, errno_at=None, err=_errno.EIO, short_at=None, short_len=1, short_then=None):
+    def arm(self, crash_at=None, torn=0, errno_at=None, err=_errno.EIO, short_at=None, short_len=1, short_then=None, exc=None):
         self.n = 0
         self.log = []
         self.crash_at = crash_at
         self.torn = torn
         self.errno_at = errno_at
         self.errno = err
+        self.errno_exc = exc   # (default None: OSError(err)); e.g. KeyboardInterrupt - the call at errno_at does not happen and this is raised
         self.crashed_op = None
         self.short_at = short_at
         self.short_len = short_len
@@ -127,6 +129,8 @@ class FS:
             return "crash"
         if self.errno_at is not None and self.n == self.errno_at:
             self.crashed_op = op
+            if self.errno_exc is not None:
+                raise self.errno_exc()
             raise OSError(self.errno, os.strerror(self.errno), path)
         return None
 
